@@ -42,6 +42,7 @@ type concObs struct {
 	SeqOK   bool                `json:"seqok"` // every API call returned its sequential answer
 	Detail  string              `json:"detail"`
 	Outcome string              `json:"outcome"`
+	Line    string              `json:"line"` // the input line, for a solo re-run
 }
 
 var concFlags struct {
@@ -119,7 +120,9 @@ func init() {
 					return err
 				}
 				concCounter++
-				emit(runStress(concCounter, c.G, c.Rounds, c.Procs))
+				so := runStress(concCounter, c.G, c.Rounds, c.Procs)
+				so.Line = string(line)
+				emit(so)
 				return nil
 			}
 			var prog map[string][]string
@@ -133,7 +136,7 @@ func init() {
 			return nil
 		},
 		crashed: func(line []byte, outcome, detail string) interface{} {
-			return &concObs{Outcome: outcome, Detail: detail, Events: []concEvent{}, Prog: map[string][]string{}}
+			return &concObs{Outcome: outcome, Detail: detail, Events: []concEvent{}, Prog: map[string][]string{}, Line: string(line)}
 		},
 	}
 }
